@@ -94,7 +94,8 @@ IntOp(op, a, b) ==
     [] op = "&"  -> IntV(I64And(a, b))
     [] op = "|"  -> IntV(I64Or(a, b))
     [] op = "^"  -> IntV(I64Xor(a, b))
-    [] op = ":"  -> IF I64Cmp(b, a) < 0 THEN Err("range index invalid")
+    [] op = ":"  -> \* the length b - a is computed in 64-bit arithmetic; negative (or wrapped) is an error
+                    IF I64Cmp(I64Sub(b, a), "0") < 0 THEN Err("range index invalid")
                     ELSE IF I64Cmp(I64Sub(b, a), IntToI64(MaxBuild)) > 0 THEN FuelErr
                     ELSE Arr(RangeSeq(a, b))
     [] OTHER     -> Err("unknown operator")
@@ -169,6 +170,7 @@ VFirst(v) ==
     [] v.t = "arr" -> IF Len(v.e) = 0 THEN Nil ELSE v.e[1]
     [] v.t = "map" -> IF Len(v.p) = 0 THEN Nil ELSE FirstPair(v.p[1])
     [] v.t = "str" -> IF v.v = "" THEN Nil ELSE Str(StrFirstRune(v.v))
+    [] v.t = "func" -> Arr([i \in 1..Len(v.ps) |-> Str(v.ps[i])])   \* parameter names
     [] OTHER       -> Err("first() not supported")
 
 VRest(v) ==
@@ -176,6 +178,7 @@ VRest(v) ==
     [] v.t = "arr" -> IF Len(v.e) <= 1 THEN Nil ELSE Arr(Tail(v.e))
     [] v.t = "map" -> IF Len(v.p) <= 1 THEN Nil ELSE Map(Tail(v.p))
     [] v.t = "str" -> IF StrLen(v.v) <= 1 THEN Nil ELSE Str(StrRestRunes(v.v))
+    [] v.t = "func" -> FuelErr   \* body statements as printed text: outside the modelled fragment
     [] OTHER       -> Err("rest() not supported")
 
 \* index with a non-slice index value; nil as index is 0
@@ -407,8 +410,9 @@ ForList(list, name, body, last, st) ==
            s   == LoopStep(r.v, last)
        IN IF s[1] = "stop" THEN R(s[2], r.st) ELSE ForList(VRest(list), name, body, s[2], r.st)
 
+\* the count b - a is computed in 64-bit arithmetic: a negative (or wrapped-around) count is an error
 StartForInt(a, b, name, body, st) ==
-  IF I64Cmp(b, a) < 0 THEN R(Err("for loop with negative count"), st)
+  IF I64Cmp(I64Sub(b, a), "0") < 0 THEN R(Err("for loop with negative count"), st)
   ELSE ForInt(a, b, name, body, Nil, st)
 
 \* `for cond {}`: boolean condition re-evaluated each time (nil/false ends); an integer condition is a count
